@@ -239,7 +239,11 @@ def run_session(case: dict) -> dict:
                 p = DecFileParser.from_string(decgen.canonical_text(case["docs"][di]))
                 with warnings.catch_warnings():
                     warnings.simplefilter("ignore")
-                    p.parse()
+                    try:
+                        p.parse()
+                    except Exception:
+                        p = None  # a generated document that does not parse offers no chains (counted as skipped builds)
+                        stats["unparseable_documents"] = stats.get("unparseable_documents", 0) + 1
                 parsers[di] = p
             return parsers[di]
 
@@ -247,7 +251,7 @@ def run_session(case: dict) -> dict:
             if op["src"] == "class":
                 return class_chain_dict(op["c"])
             p = parser(op["doc"])
-            if tree_size(p, op["m"], {}) > MAX_NODES:
+            if p is None or tree_size(p, op["m"], {}) > MAX_NODES:
                 return None
             try:
                 return p.build_decay_chains(op["m"], stable_particles=op.get("stable", []))
@@ -372,8 +376,9 @@ def run_session(case: dict) -> dict:
                         real_chains()[op.get("c", 0) % 3].to_string()
                 elif case["docs"]:
                     p = parser(op.get("doc", 0) % len(case["docs"]))
-                    p.list_decay_mother_names()
-                    p.dict_aliases()
+                    if p is not None:
+                        p.list_decay_mother_names()
+                        p.dict_aliases()
                 abstract.append((k, op["what"]))
     except Violation as v:
         out.update(verdict="violation", signature={"check": v.check}, detail=v.detail)
